@@ -979,5 +979,205 @@ Section PlanProofs.
         + destruct H as [N2 _]. apply nodes_part_result. exact (none_below_S 2 c2 eq_refl H2 N2).
       - apply nodes_part_result. apply (none_below_S 2 c2 eq_refl H2). intros n. unfold c2. now rewrite Er.
     Qed.
+
+    (* ---- pick() is accepted *)
+    Lemma min_group_with_ge (grp : N -> nat) l k : (k <= 8)%nat -> (forall m, In m l -> (k <= grp m)%nat) ->
+      (k <= min_group_with l grp)%nat.
+    Proof.
+      intros Hk8. induction l as [|x r IH]; intros H; cbn [min_group_with fold_right]; [assumption|].
+      fold (min_group_with r grp). specialize (IH (fun m Hm => H m (or_intror Hm))).
+      specialize (H x (or_introl eq_refl)). lia.
+    Qed.
+    Lemma min_group_with_le8 (grp : N -> nat) l : (min_group_with l grp <= 8)%nat.
+    Proof. induction l as [|x r IH]; cbn [min_group_with fold_right]; [lia|]. fold (min_group_with r grp). lia. Qed.
+
+    Lemma group_of_exact k c p : nth_error conds k = Some c -> c p = true -> none_below k ->
+      group_of p = k /\ In p all_nodes /\ (k < 8)%nat /\ min_group_with all_nodes group_of = k.
+    Proof.
+      intros Hc Hp Hb. assert (Hk8 : (k < 8)%nat) by (apply nth_error_Some_lt in Hc; exact Hc).
+      assert (Hg : group_of p = k).
+      { apply Nat.le_antisymm; [rewrite group_of_first_true; eapply first_true_nth; eassumption|].
+        apply none_below_group; [lia|assumption]. }
+      assert (Hin : In p all_nodes).
+      { destruct (cond_ok p) as [_ Hperm]; [exists c; split; [eapply nth_error_In; eassumption|assumption]|].
+        apply permitted_spec in Hperm. tauto. }
+      repeat split; try assumption. apply Nat.le_antisymm.
+      - rewrite <- Hg. now apply min_group_with_le.
+      - apply min_group_with_ge; [lia|]. intros m _. apply none_below_group; [lia|assumption].
+    Qed.
+
+    Theorem pick_matches_model : pick_matches (option_map fst pick) = true.
+    Proof.
+      pose proof pick_spec as H. unfold pick_result_ok in H. unfold Plan.pick_matches. cbv zeta.
+      fold all_nodes. change (group_with all_nodes local_nodes rep_local rep_any) with group_of.
+      destruct pick as [[p sh]|]; cbn [option_map fst].
+      - destruct H as (k & c & Hc & Hp & Hb & _ & Hl).
+        destruct (group_of_exact k c p Hc Hp Hb) as (Hg & Hin & Hk8 & Hmin).
+        rewrite Hmin, Hg, Nat.eqb_refl. assert (E8 : (k <? 8)%nat = true) by now apply Nat.ltb_lt.
+        rewrite E8. cbn [andb]. destruct (rq_lwt rq) eqn:El; [|reflexivity]. cbn [andb].
+        destruct (k <? 3)%nat eqn:E3; [|reflexivity]. apply Nat.ltb_lt in E3.
+        destruct (Hl eq_refl E3) as (r & ->). apply N.eqb_refl.
+      - destruct H as [H8|(Hl & Hr & H2 & t & s & primary & r & Ets & Eo & Ea)].
+        + assert (E : min_group_with all_nodes group_of = 8%nat).
+          { apply Nat.le_antisymm; [apply min_group_with_le8|]. apply min_group_with_ge; [lia|].
+            intros m _. now apply none_below_group. }
+          now rewrite E.
+        + rewrite Hl, Hr, Ets, Eo, Ea. cbn [andb negb].
+          assert (E : (2 <=? min_group_with all_nodes group_of)%nat = true).
+          { apply Nat.leb_le. apply min_group_with_ge; [lia|]. intros m _. apply none_below_group; [lia|assumption]. }
+          rewrite E. apply orb_true_r.
+    Qed.
+
+    (* ---- moving an accepted pick to the front of an accepted plan keeps it accepted *)
+    Lemma remove_by_filter x l : remove_by N.eqb x l = filter (fun y => negb (N.eqb x y)) l.
+    Proof. induction l as [|y r IH]; [reflexivity|]. cbn [remove_by filter]. destruct (N.eqb x y); cbn [negb]; now rewrite IH. Qed.
+
+    Lemma grp_lt8_ok n : (group_of n < 8)%nat -> enabled n = true /\ permitted n = true.
+    Proof.
+      intros H. apply cond_ok. rewrite group_of_first_true in H.
+      apply (first_true_lt conds n). unfold conds at 2. cbn [List.length]. exact H.
+    Qed.
+
+    Lemma plan_front F p : plan_matches F = true -> pick_matches (Some p) = true ->
+      plan_matches (p :: remove_by N.eqb p F) = true.
+    Proof.
+      intros HF Hp. pose proof (pick_matches_sound p Hp) as (Hp8 & Hpmin & Hplwt).
+      pose proof (plan_matches_sound F HF) as (F1 & F2 & F3 & F4 & F5 & F6).
+      destruct (grp_lt8_ok p Hp8) as [Hpe Hpp].
+      unfold Plan.plan_matches in *. cbv zeta in *. fold all_nodes in *.
+      change (permitted_with all_nodes) with permitted in *.
+      change (group_with all_nodes local_nodes rep_local rep_any) with group_of in *.
+      rewrite !andb_true_iff in HF. destruct HF as [[[[G1 G2] G3] G4] G5].
+      rewrite forallb_forall in G2, G3.
+      assert (HinF : forall n, In n F -> In n all_nodes).
+      { intros n Hn. specialize (G2 n Hn). apply andb_true_iff in G2. destruct G2 as [_ G2].
+        apply permitted_spec in G2. tauto. }
+      rewrite !andb_true_iff. repeat split.
+      - apply nodupb_spec. constructor.
+        + rewrite (remove_by_In N.eqb Neqb_eq). tauto.
+        + apply (remove_by_NoDup N.eqb Neqb_eq), F1.
+      - apply forallb_forall. intros n [<-|Hn]; [now rewrite Hpe, Hpp|].
+        apply (remove_by_In N.eqb Neqb_eq) in Hn. apply G2. tauto.
+      - apply forallb_forall. intros n Hn. specialize (G3 n Hn). apply mem_In in G3. apply mem_In.
+        destruct (N.eq_dec n p) as [->|Hne]; [now left|]. right. apply (remove_by_In N.eqb Neqb_eq). tauto.
+      - cbn [map]. apply nondecreasing_cons. split.
+        + intros y Hy. apply in_map_iff in Hy. destruct Hy as (n & <- & Hn).
+          apply (remove_by_In N.eqb Neqb_eq) in Hn. apply Hpmin, HinF. tauto.
+        + rewrite remove_by_filter. now apply nondecreasing_filter.
+      - destruct (rq_lwt rq) eqn:El; [|reflexivity]. apply list_eqb_spec in G5. apply list_eqb_spec.
+        assert (Hrem : filter (fun n => (group_of n <? 3)%nat) (remove_by N.eqb p F) = remove_by N.eqb p lwt_sequence).
+        { rewrite <- G5, !remove_by_filter, !filter_filter_and. apply filter_ext. intros n. apply andb_comm. }
+        assert (HndL : NoDup lwt_sequence) by (rewrite <- G5; apply NoDup_filter, F1).
+        cbn [filter]. destruct (group_of p <? 3)%nat eqn:E3.
+        + apply Nat.ltb_lt in E3. destruct (Hplwt eq_refl E3) as (r & Er). rewrite Hrem, Er.
+          cbn [remove_by]. rewrite N.eqb_refl. f_equal. rewrite Er in HndL. inversion HndL as [|? ? Hnr Hr]; subst.
+          rewrite remove_by_filter. apply filter_id_all. intros y Hy. apply negb_true_iff, N.eqb_neq. intros ->. contradiction.
+        + rewrite Hrem, remove_by_filter. apply filter_id_all. intros y Hy. apply negb_true_iff, N.eqb_neq. intros <-.
+          rewrite <- G5 in Hy. apply filter_In in Hy. destruct Hy as [_ Hy]. congruence.
+    Qed.
+
+    (* ---- Plan: the picked target first, then the fallback plan without it *)
+    Lemma filter_ws_ws p l :
+      filter (fun x => negb (target_eqb x (with_shard shf p))) (map (with_shard shf) l) =
+      map (with_shard shf) (remove_by N.eqb p l).
+    Proof.
+      induction l as [|n r IH]; [reflexivity|]. cbn [map filter remove_by]. unfold target_eqb at 1.
+      cbn [with_shard fst snd oeqb]. rewrite (N.eqb_sym n p). destruct (N.eqb p n) eqn:E.
+      - apply N.eqb_eq in E. subst. rewrite N.eqb_refl. cbn [andb negb]. exact IH.
+      - cbn [andb negb map]. now rewrite IH.
+    Qed.
+    Lemma filter_ns_ws p l :
+      filter (fun x => negb (target_eqb x (with_shard shf p))) (map no_shard l) = map no_shard l.
+    Proof.
+      apply filter_id_all. intros x Hx. apply in_map_iff in Hx. destruct Hx as (n & <- & _).
+      unfold target_eqb. cbn [with_shard no_shard fst snd oeqb]. now rewrite andb_false_r.
+    Qed.
+    Lemma filter_ns_ns p l :
+      filter (fun x => negb (target_eqb x (no_shard p))) (map no_shard l) = map no_shard (remove_by N.eqb p l).
+    Proof.
+      induction l as [|n r IH]; [reflexivity|]. cbn [map filter remove_by]. unfold target_eqb at 1.
+      cbn [no_shard fst snd oeqb]. rewrite andb_true_r, (N.eqb_sym n p). destruct (N.eqb p n); cbn [negb map]; now rewrite IH.
+    Qed.
+
+    Lemma remove_by_app p (a b : list N) : remove_by N.eqb p (a ++ b) = remove_by N.eqb p a ++ remove_by N.eqb p b.
+    Proof. now rewrite !remove_by_filter, filter_app. Qed.
+    Lemma remove_by_notin p (l : list N) : ~ In p l -> remove_by N.eqb p l = l.
+    Proof.
+      intros H. rewrite remove_by_filter. apply filter_id_all. intros y Hy. apply negb_true_iff, N.eqb_neq.
+      intros ->. contradiction.
+    Qed.
+
+    Lemma target_eqb_eq x y : target_eqb x y = true -> x = y.
+    Proof.
+      unfold target_eqb. destruct x as [n s], y as [m u]. cbn [fst snd]. intros H.
+      apply andb_true_iff in H. destruct H as [H1 H2]. apply N.eqb_eq in H1. apply oeqb_eq in H2. now subst.
+    Qed.
+    Lemma target_cmp_refl x : target_cmp x x = true.
+    Proof. unfold target_cmp. rewrite N.eqb_refl. destruct (snd x); [apply N.eqb_refl|reflexivity]. Qed.
+
+    Lemma replica_member k c p : nth_error conds k = Some c -> c p = true -> (k < 3)%nat ->
+      In p (concat seg_replicas).
+    Proof.
+      intros Hc Hp Hk3. destruct (segs_nth_In _ _ segments_spec k c p Hc Hp) as (Sg & HS & Hin).
+      rewrite nth_error_app1 in HS by (rewrite seg_replicas_length; assumption).
+      apply In_concat_nth. eauto.
+    Qed.
+
+    Lemma no_replicas k : (3 <= k)%nat -> none_below k -> concat seg_replicas = [].
+    Proof.
+      intros Hk3 Hb. destruct (concat seg_replicas) as [|m r] eqn:E; [reflexivity|]. exfalso.
+      assert (Hm : In m (concat seg_replicas)) by (rewrite E; now left).
+      apply In_concat_nth in Hm. destruct Hm as (j & Sg & Hj & Hin).
+      assert (Hj3 : (j < 3)%nat) by (rewrite <- seg_replicas_length; eapply nth_error_Some_lt; eassumption).
+      assert (Hj' : nth_error (seg_replicas ++ seg_nodes) j = Some Sg) by (rewrite nth_error_app1; [assumption|rewrite seg_replicas_length; assumption]).
+      destruct (segs_In_cond _ _ segments_spec j Sg m Hj' Hin) as (c & Hc & Ec).
+      rewrite (Hb j c) in Ec; [discriminate|lia|assumption].
+    Qed.
+
+    Lemma plan_nodes :
+      map fst plan = match pick with
+                     | Some (p, _) => p :: remove_by N.eqb p (map fst fallback)
+                     | None => map fst fallback
+                     end.
+    Proof.
+      unfold Plan.plan. pose proof pick_spec as H. unfold pick_result_ok in H.
+      destruct pick as [[p sh]|].
+      - destruct H as (k & c & Hc & Hp & Hb & Hsh & _). cbn [map fst]. f_equal. rewrite fallback_structure.
+        destruct (k <? 3)%nat eqn:E3; subst sh.
+        + apply Nat.ltb_lt in E3. change (p, Some (shf p)) with (with_shard shf p).
+          rewrite filter_app, filter_ws_ws, filter_ns_ws, !map_app, !map_map. cbn [with_shard no_shard fst].
+          rewrite !map_id, remove_by_app. f_equal. symmetry. apply remove_by_notin.
+          intros C. apply filter_In in C. destruct C as [_ C]. apply negb_true_iff, mem_false in C.
+          apply C. now apply (replica_member k c p).
+        + apply Nat.ltb_ge in E3. change (p, @None N) with (no_shard p).
+          rewrite (no_replicas k E3 Hb). cbn [uniq uniq_by uniq_aux map app].
+          rewrite (filter_id_all (fun n => negb (mem n []))) by reflexivity.
+          rewrite filter_ns_ns, !map_map. cbn [no_shard fst]. now rewrite !map_id.
+      - destruct fallback as [|f rest] eqn:Ef; [reflexivity|].
+        pose proof fallback_targets_distinct as Hd. rewrite Ef in Hd. inversion Hd as [|? ? Hf Hr]; subst.
+        rewrite (filter_id_all _ rest); [reflexivity|]. intros x Hx. apply negb_true_iff.
+        destruct (target_eqb x f) eqn:E; [|reflexivity]. exfalso. apply target_eqb_eq in E. subst x.
+        rewrite Forall_forall in Hf. specialize (Hf f Hx). rewrite target_cmp_refl in Hf. discriminate.
+    Qed.
+
+    Theorem plan_matches_model : plan_matches (map fst plan) = true.
+    Proof.
+      rewrite plan_nodes. pose proof pick_matches_model as Hp.
+      destruct pick as [[p sh]|]; cbn [option_map fst] in Hp.
+      - apply plan_front; [apply fallback_matches|assumption].
+      - apply fallback_matches.
+    Qed.
+
+    Theorem plan_properties :
+      let p := map fst plan in
+      P_nodup p /\ P_filter enabled p /\ P_locality dcf pol rq p /\ P_complete dcf g enabled pol rq p /\
+      P_order dcf rackf g keyspaces enabled connected pol rq p /\
+      P_lwt dcf rackf g keyspaces enabled connected pol rq p.
+    Proof. apply plan_matches_sound, plan_matches_model. Qed.
+
+    (* LWT: the replica part of the plan does not depend on any oracle *)
+    Theorem plan_lwt_deterministic : rq_lwt rq = true ->
+      filter (fun n => (group_of n <? 3)%nat) (map fst plan) = lwt_sequence.
+    Proof. intros Hl. destruct plan_properties as (_ & _ & _ & _ & _ & H). now apply H. Qed.
   End Model.
 End PlanProofs.
